@@ -83,6 +83,30 @@ def tool_paths(rep, b, ch, ldns):
     return execs
 
 
+def views(rep, b, ch):
+    dconv = b.tool("dconv")
+    lo, hi = chainmod.LDN_1601, 917327 - 1      # day counts convert up to 4094-05-04 only (known finding)
+    days = "".join(cc.fmt_row("ymd", ch.row(l)) + "\n" for l in range(lo, hi + 1))
+    CUSTOM = {"ymd": "%Y-%m-%d", "ymcw": "%Y-%m-%c-%w", "ywd": "%G-W%V-%u", "yd": "%Y-%j"}
+    rc, cust, err = cc.tool_lines(dconv, ["-f", "|".join(CUSTOM[k] for k in ("ymd", "ymcw", "ywd", "yd"))], days, timeout=600)
+    n = hi - lo + 1
+    if len(cust) != n:
+        raise core.MachineryError("dconv custom view: %d lines for %d days: %s" % (len(cust), n, err[:200]))
+    cols = [c.split("|") for c in cust]
+    for ci, cal in enumerate(("ymd", "ymcw", "ywd", "yd")):
+        rc, dflt, err = cc.tool_lines(dconv, ["-f", cal], days, timeout=600)
+        if len(dflt) != n:
+            raise core.MachineryError("dconv -f %s: %d lines for %d days" % (cal, len(dflt), n))
+        bad = [i for i in range(n) if cols[i][ci] != dflt[i]]
+        rep.count(evaluations=n, distinct=n)
+        if bad:
+            i0, i1 = bad[0], bad[-1]
+            rep.disagree("custom specifiers %s differ from the default output of %s" % (CUSTOM[cal], cal),
+                         {"days": len(bad), "first": cc.fmt_row("ymd", ch.row(lo + i0)), "last": cc.fmt_row("ymd", ch.row(lo + i1)),
+                          "custom": cols[i0][ci], "default": dflt[i0]})
+    rep.sample({"views": {"day": cust[n // 2]}})
+
+
 def main(tier):
     rep = core.Report(PID, tier, "model_checking")
     b = core.Build("plain")
@@ -100,6 +124,9 @@ def main(tier):
         if not quick:
             plan.append(dict(mode="rt", step=7, args=(1,), prefix="all7 ", exhaustive=False))
         cc.run_plan(rep, b, ch, drv, plan)
+        # the calendar's own default output (printed from the held representation) against the same fields through custom specifiers
+        # (evaluated on the ymd view), on every day up to the day-count tail
+        views(rep, b, ch)
         sample = [l for i, l in enumerate(bnd) if i % (5 if quick else 1) == 0]
         ex = tool_paths(rep, b, ch, sample)
         cc.validate_and_report(rep, "CalendarTrace", "CalendarTrace.cfg", ex,
